@@ -13,11 +13,11 @@ CHECKS = {
             "Trusts num-bigint integer arithmetic and BigDecimal::as_bigint_and_exponent as the observation point. Does not establish absence outside the explored cases.",
             "5 C01"),
     "C02": ("exhaustive enumeration of word-boundary twins + proptest generation, differential against the exact order of rationals, release and debug-assertion builds",
-            "Exploration with an exhaustively enumerated sub-scope: all 1- and 2-word operands from the 32-bit carry/overflow boundary words x scale gaps x {twin, +1, -1} x signs; an exhaustive sweep of EVERY scale gap 1..1500 (5000 thorough) over coefficients around powers of two and ten with decimal and binary-structured neighbours (+-1, +2^32 .. +2^192); value-equal pairs with scale gaps of 10^4..10^6 (the only inputs on which the float estimate of the early-out decides); generated twins/neighbours/same-magnitude pairs up to 3000 digits, scale differences beyond 2^63, u64/u128 straddles, sort/max/min vectors; plain, sign-flipped and abs references. Every operator on BigDecimal and BigDecimalRef is compared with the oracle order; panics are violations (second build with debug assertions and overflow checks).",
+            "Exploration with an exhaustively enumerated sub-scope: all 1- and 2-word operands from the 32-bit carry/overflow boundary words x scale gaps x {twin, +1, -1} x signs; an exhaustive sweep of EVERY scale gap 1..1500 (5000 thorough) over coefficients around powers of two and ten with decimal and binary-structured neighbours (+-1, +2^32 .. +2^192); value-equal pairs with scale gaps of 10^4..10^6 (the only inputs on which the float estimate of the early-out decides); generated twins/neighbours/same-magnitude pairs up to 3000 digits, scale differences beyond 2^63, u64/u128 straddles, sort/max/min vectors; plain, sign-flipped and abs references. Every operator on BigDecimal and BigDecimalRef is compared with the oracle order; panics are violations (second build with debug assertions and overflow checks). The huge-gap stage also takes the scale gaps (to 250000 quick, 10^6 thorough) at which g*log2(10) is closest to an integer, computed exactly.",
             "Oracle: adjusted-exponent-first exact comparison on (BigInt, i128). Trusts num-bigint.",
             "5 C02"),
     "C03": ("exhaustive small-scope enumeration + proptest generation of value-equal representation pairs; byte-stream comparison through a recording Hasher",
-            "Exploration: all canonical |n| < 2000 x scales -6..6 x 0..8 extra zeros each side exhaustively; every zero-run length 1..2500 (10000 thorough); generated twins up to 1500 digits incl. limb-structured integers (zero / all-ones 64-bit limbs ending in decimal zeros), zeros over the whole +-10^5 scale range, negative scale versus written-out zeros up to 90000 zeros. Byte stream, DefaultHasher, SipHasher13 and HashSet membership are compared; both build flavours.",
+            "Exploration: all canonical |n| < 2000 x scales -6..6 x 0..8 extra zeros each side exhaustively; every zero-run length 1..2500 (10000 thorough); generated twins up to 1500 digits incl. limb-structured integers (zero / all-ones 64-bit limbs ending in decimal zeros), zeros over the whole +-10^5 scale range, negative scale versus written-out zeros up to 90000 zeros. Byte stream, DefaultHasher, SipHasher13 and HashSet membership are compared; both build flavours. A stage of (c, scale -k) against written zeros with c*10^k around 2^32, 2^64 and 2^128.",
             "Equality of each pair is asserted by the exact oracle, not by the library. |scale| <= 10^5 as in the property.",
             "5 C03"),
     "C04": ("round-trip property testing (render -> library parser and independent reference evaluator) over a complete length x scale grid plus proptest generation",
@@ -53,7 +53,7 @@ CHECKS = {
             "Oracle: verified floor integer cube root, (2s+1)^3*den vs 8*num.",
             "5 C11"),
     "C12": ("exhaustive small scope and all 2^i*5^j + proptest generation; residual-based reciprocal oracle; iteration-cap hook for termination; metamorphic sign-mirror relation",
-            "Exploration: every 0<|n| below the tier limit x 5 scales x p 1..6 x 7 modes and all 2^i*5^j (i<=60, j<=30) around their exact length exhaustively; generated inputs to 1500 digits, bit lengths to 5000, 99..9 / 100..01, reciprocals with 00../99.. after the p-th digit, p weighted to 1..5 and 100. Sign, < 1 unit of the p-th digit, exactness when 1/x has <= p digits, mirror law, agreement of inverse() and `1 / x`.",
+            "Exploration: every 0<|n| below the tier limit x 5 scales x p 1..6 x 7 modes and all 2^i*5^j (i<=60, j<=30) around their exact length exhaustively; generated inputs to 1500 digits, bit lengths to 5000, 99..9 / 100..01, reciprocals with 00../99.. after the p-th digit, p weighted to 1..5 and 100. Sign, < 1 unit of the p-th digit, exactness when 1/x has <= p digits, mirror law, agreement of inverse() and `1 / x`. A high-precision stage: p in 150..1300 on operands just above / below powers of two, small integers and random operands.",
             "Termination is observed through the --cfg bigdecimal_verif iteration cap (2000 Newton steps). The unit is that of the p-th digit of 1/x itself.",
             "5 C12"),
     "C13": ("exhaustive integer arguments + proptest generation; rigorous big-integer interval arithmetic for e^x as oracle",
@@ -77,7 +77,7 @@ CHECKS = {
             "Uses serde_json 1.0.117 (arbitrary_precision) from the repository's lock file.",
             "5 C17"),
     "C18": ("exhaustive enumeration (k = 0..5000 powers of ten, all 5-digit values x scales) + proptest generation; string-built expectations",
-            "Exploration: digits() on both sides of every power of ten up to 10^5000 and the three power-of-ten algorithms exhaustively; all unscaled values of up to 5 digits x scales -6..6; generated values to 5000 digits with up to 5000 trailing zeros and extensions through with_scale / with_prec / the rounding forms.",
+            "Exploration: digits() on both sides of every power of ten up to 10^5000 and the three power-of-ten algorithms exhaustively; all unscaled values of up to 5 digits x scales -6..6; generated values to 5000 digits with up to 5000 trailing zeros and extensions through with_scale / with_prec / the rounding forms. A stage of integers whose low machine words alone end in z decimal zeros (n = hi*2^(32w) + m*10^z).",
             "Expected integers are decimal strings built by the harness.",
             "5 C18"),
     "C19": ("model-based (stateful) property testing: generated operation programs interpreted on the library and on an exact model, invariant checked after every step (+ libFuzzer in the thorough tier)",
